@@ -167,6 +167,33 @@ def run(ctx: core.Ctx):
         wts = np.ones(n)
         for rep in range(24):
             cmp("ws2d (repeated, boundary length)", dict(y=base.tolist(), n=n, call=rep), lambda: ws2d(base, lam, wts), lambda: I["ws2d"](base, lam, wts))
+    # (nearly) constant positive pixels: s = log(mean) - mean(log) is a few ulp, Brent finds no bracket and returns 0; whatever the
+    # source then returns under the interpreter (NumPy scalars: x / 0.0 = inf with a warning), the compiled code must not RAISE
+    # instead (nopython scalar division follows Python's error model).  Values are compared only when both sides agree that the
+    # pixel is unfittable; the knife-edge `s == 0` itself is not judged.
+    for v in (250.0, 33.3, 0.1, 7.0, 12345.0, 1e-3):
+        for n in (5, 13, 19, 36):
+            for dt in ("float64", "int16"):
+                xs = np.full(n, v).astype(dt)
+                if not (xs > 0).all():
+                    continue
+                c3 = xs.reshape(1, 1, n)
+                for prog, comp, interp in (("gammafit", lambda: stats.gammafit(xs), lambda: I["gammafit"](xs)),
+                                           ("gammastd", lambda: stats.gammastd(xs, -9999.0, 0, n), lambda: I["gammastd"](xs, -9999.0, 0, n)),
+                                           ("gammastd_yxt", lambda: stats.gammastd_yxt(c3, -9999.0, 0, n), lambda: I["gammastd_yxt"](c3, -9999.0, 0, n))):
+                    programs.add(prog)
+                    ctx.case((prog, "const", v, n, dt), sample=dict(program=prog, input=f"{n} x {v} ({dt})"))
+                    ctx.count(prog + " (constant pixel)")
+                    try:
+                        with np.errstate(all="ignore"):
+                            ri = interp()
+                    except Exception:  # noqa: BLE001
+                        continue
+                    try:
+                        comp()
+                    except Exception as e:  # noqa: BLE001
+                        ctx.fail(prog, dict(x=f"{n} x {v}", dtype=dt), repr(e)[:120], dict(interpreted=str(np.asarray(ri).ravel()[:4].tolist())),
+                                 note="the compiled kernel raises where its source, run by the interpreter, returns")
     N = ctx.budget(6, 40)
     for _ in range(N):
         n = rng.choice([5, 8, 12, 24, 36])
